@@ -38,6 +38,7 @@ type PathResult struct {
 	Steps           int64
 	Symbolic        bool
 	PCSample        string
+	Learned         int
 }
 
 type HarnessResult struct {
@@ -83,6 +84,8 @@ type Explorer struct {
 	funcs   map[*ssa.Function]bool
 	maxPath int
 	stop    bool
+	maxSeconds int
+	concParams map[string]concSpec
 }
 
 func newInterp(prog *ssa.Program, base *Base, cfg *RunConfig) *Interp {
@@ -137,6 +140,27 @@ func (e *Explorer) Run(workers int, maxPaths int) *HarnessResult {
 	e.work = [][]Decision{nil}
 	e.maxPath = maxPaths
 	t0 := time.Now()
+	deadline := t0.Add(time.Duration(e.maxSeconds) * time.Second)
+	doneCh := make(chan struct{})
+	go func() {
+		tk := time.NewTicker(15 * time.Second)
+		defer tk.Stop()
+		for {
+			select {
+			case <-doneCh:
+				return
+			case <-tk.C:
+				e.mu.Lock()
+				fmt.Fprintf(os.Stderr, "  [%s] %.0fs paths=%d pending=%d active=%d viol=%d inconcl=%d queries=%d\n", e.fn.Name(), time.Since(t0).Seconds(), e.res.Paths, len(e.work), e.active, len(e.res.Violations), len(e.res.Inconclusive), gStats.Queries)
+				if e.maxSeconds > 0 && time.Now().After(deadline) && !e.stop {
+					e.stop = true
+					e.res.Inconclusive = append(e.res.Inconclusive, fmt.Sprintf("time budget %ds exhausted with %d paths pending", e.maxSeconds, len(e.work)+e.active))
+				}
+				e.mu.Unlock()
+				e.cond.Broadcast()
+			}
+		}
+	}()
 	var wg sync.WaitGroup
 	for w := 0; w < workers; w++ {
 		wg.Add(1)
@@ -178,6 +202,7 @@ func (e *Explorer) Run(workers int, maxPaths int) *HarnessResult {
 		}()
 	}
 	wg.Wait()
+	close(doneCh)
 	e.res.WallS = time.Since(t0).Seconds()
 	for f := range e.funcs {
 		e.res.Funcs = append(e.res.Funcs, f.String())
@@ -250,6 +275,10 @@ func (e *Explorer) runPath(sol *Solver, decs []Decision) (pr *PathResult, newWor
 	in.res = &PathResult{Covers: map[string]int{}}
 	in.funcsSeen = map[*ssa.Function]bool{}
 	in.replaceFn = e.replace
+	in.concParams = e.concParams
+	if e.maxSeconds > 0 {
+		in.deadline = time.Now().Add(time.Duration(e.maxSeconds) * time.Second)
+	}
 	pr = in.res
 	sol.BeginPath()
 	defer sol.EndPath()
